@@ -1,3 +1,16 @@
+/-
+  PDesy.Lemmas.Pert — PERT/CPM (`update_PERT_data`): specification and correctness of the
+  wave-front relaxation.
+
+  * list folds, pigeonhole, abstract DAGs (`DAG`), longest-path functions (`exists_lp`),
+    depth (`IsDepth`, `exists_depth`);
+  * `gRelax`/`gWave`/`gLoop`: the wave loop on an abstract network, parametric in the store
+    test `fire`; `gLoop_correct`: it computes the longest-path function;
+  * `AEqs`: the PERT/CPM equations on an abstract network; uniqueness, slack, critical tasks;
+  * `FSOnly`, `GraphOK`, `Acyclic`, `PertEqs`: the same for the model; `fwdLoop`/`bwdLoop` are
+    instances of `gLoop` (`fwdLoop_sim`, `bwdLoop_sim`, the backward one on negated values);
+  * `pert_AEqs`: the output of `pert` solves the equations.
+-/
 import PDesy.Model.Phases
 namespace PDesy.PertSpec
 open PDesy
@@ -863,6 +876,20 @@ theorem GraphOK.iff {m : Model} (h : GraphOK m) {t p : Nat} (ht : t < m.nT) (hp 
     (d : Dep) : (p, d) ∈ (m.task t).inputs ↔ (t, d) ∈ (m.task p).outputs :=
   ⟨fun hi => ((h t ht).1 (p, d) hi).2, fun ho => ((h p hp).2 (t, d) ho).2⟩
 
+/-- `GraphOK` is the literal "indices in range, `(p, d) ∈ inputs t ↔ (t, d) ∈ outputs p`" -/
+theorem graphOK_iff (m : Model) :
+    GraphOK m ↔
+      (∀ t, t < m.nT → (∀ e ∈ (m.task t).inputs, e.1 < m.nT) ∧ (∀ e ∈ (m.task t).outputs, e.1 < m.nT)) ∧
+      (∀ t p d, t < m.nT → p < m.nT → ((p, d) ∈ (m.task t).inputs ↔ (t, d) ∈ (m.task p).outputs)) := by
+  constructor
+  · intro h
+    exact ⟨fun t ht => ⟨fun e he => ((h t ht).1 e he).1, fun e he => ((h t ht).2 e he).1⟩,
+      fun t p d ht hp => h.iff ht hp d⟩
+  · rintro ⟨h1, h2⟩ t ht
+    refine ⟨fun e he => ⟨(h1 t ht).1 e he, ?_⟩, fun e he => ⟨(h1 t ht).2 e he, ?_⟩⟩
+    · exact (h2 t e.1 e.2 ht ((h1 t ht).1 e he)).1 he
+    · exact (h2 e.1 t e.2 ((h1 t ht).2 e he) ht).2 he
+
 theorem mem_Gm {m : Model} {x p : Nat} : p ∈ Gm m x ↔ ∃ d, (p, d) ∈ (m.task x).inputs := by
   simp [Gm]
 
@@ -969,7 +996,7 @@ theorem bwdRelax_sim (l : Live) (s : AB) (p : Pert) (o : Nat) (e : Nat × Dep) (
     congr 1
     · funext x; simp only [upd_apply]; split <;> grind
     · funext x; simp only [upd_apply]; split <;> rfl
-  · rename_i hc; rw [if_neg hc]
+  · rename_i hc; simp only [hc, if_false]
 
 theorem fwdInner_sim (l : Live) (p : Pert) (i : Nat) :
     ∀ (es : List (Nat × Dep)) (s : AB), (∀ e ∈ es, e.2 = Dep.fs) →
@@ -1080,5 +1107,165 @@ theorem maxList_eq (dflt x : Rat) (xs : List Rat) : maxList dflt (x :: xs) = xs.
   congr 1
   funext a b
   grind
+
+theorem maxList_spec (dflt : Rat) {l : List Rat} (h : l ≠ []) :
+    maxList dflt l ∈ l ∧ ∀ y ∈ l, y ≤ maxList dflt l := by
+  cases l with
+  | nil => exact absurd rfl h
+  | cons x xs =>
+    rw [maxList_eq]
+    constructor
+    · rcases foldl_max_mem xs x with h1 | h1
+      · rw [h1]; exact List.mem_cons_self
+      · exact List.mem_cons_of_mem _ h1
+    · intro y hy
+      rcases List.mem_cons.1 hy with rfl | hy
+      · exact le_foldl_max_init _ _
+      · exact le_foldl_max_of_mem _ _ hy
+
+theorem exists_tail {n : Nat} {G H : Nat → List Nat} (hg : DAG n G H) (hn : 0 < n) :
+    ∃ x, x < n ∧ H x = [] := by
+  obtain ⟨d', hd'⟩ := exists_depth hg.symm.G_lt hg.symm.acyc
+  obtain ⟨y, hy, hdy⟩ := hd'.down hg.symm.G_lt (d' 0) 0 hn rfl 0 (Nat.zero_le _)
+  refine ⟨y, hy, ?_⟩
+  apply Classical.byContradiction
+  intro hne
+  obtain ⟨p, _, hdp⟩ := hd'.pred y hy hne
+  omega
+
+/-- backward pass (with reset): `lft`/`lst` are `cpl` minus the longest path to a tail -/
+theorem pertBwd_correct {m : Model} (hfs : FSOnly m) (l : Live) (p : Pert) {E' : Nat → Rat}
+    {d' : Nat → Nat} (cpl : Rat) (hc : cpl = maxList l.cpl ((tails m).map p.eft))
+    (hy : Hyp m.nT (Hm m) (Gm m) l.rem (-cpl) bfire E' d') :
+    (pertBwd m l true p).2 = cpl ∧ (pertBwd m l true p).1.est = p.est ∧
+      (pertBwd m l true p).1.eft = p.eft ∧
+      ∀ x, x < m.nT → (pertBwd m l true p).1.lft x = -(E' x) ∧
+        (pertBwd m l true p).1.lst x = -(E' x + l.rem x) := by
+  let s1 : AB :=
+    ⟨fun t => -(if (tails m).contains t then cpl else if t < m.nT then -1 else p.lft t),
+     fun t => -(if (tails m).contains t then cpl - l.rem t else if t < m.nT then -1 else p.lst t)⟩
+  have hrw : pertBwd m l true p =
+      (bput (gLoop bfire true l.rem m.nT (Gm m) (m.nT + 1) (tails m) s1) p, cpl) := by
+    rw [← bwdLoop_sim hfs l _ _ _ _ (fun i hi => (mem_tails.1 hi).1)]
+    simp only [pertBwd, if_true, ← hc, bput, s1, Rat.neg_neg]
+  rw [hrw]
+  refine ⟨rfl, rfl, rfl, ?_⟩
+  have := gLoop_correct (useB := true) hy (tails m) s1 (fun i => mem_tails) ?_ ?_
+  · intro x hx
+    obtain ⟨h1, h2⟩ := this x hx
+    exact ⟨by simp only [bput]; rw [h1], by simp only [bput]; rw [h2]⟩
+  · intro x hx h0
+    have : (tails m).contains x = true := by
+      simpa using mem_tails.2 ⟨hx, h0⟩
+    simp only [s1, this, if_true]
+    constructor <;> grind
+  · intro x hx h0 v _
+    have : (tails m).contains x = false := by
+      apply Bool.eq_false_iff.2
+      intro hcon
+      exact h0 (mem_tails.1 (by simpa using hcon)).2
+    simp only [s1, this, hx, if_true, bfire, Bool.false_eq_true, if_false, Rat.neg_neg,
+      decide_eq_true_eq]
+    left
+    decide +kernel
+
+/-- **C12, network form**: the result of `pert` solves the PERT/CPM equations. -/
+theorem pert_AEqs {m : Model} (time : Nat) (l : Live) (hfs : FSOnly m) (hok : GraphOK m)
+    (hac : Acyclic m) (hn : 0 < m.nT) (hrem : ∀ t, t < m.nT → 0 ≤ l.rem t) :
+    AEqs m.nT (Gm m) (Hm m) l.rem (time : Rat) (pert m time l).est (pert m time l).eft
+      (pert m time l).lst (pert m time l).lft (pert m time l).cpl := by
+  have hg := dag_of hok hac
+  obtain ⟨E, hE⟩ := exists_lp (time : Rat) l.rem hg.G_lt hg.acyc
+  obtain ⟨d, hd⟩ := exists_depth hg.G_lt hg.acyc
+  have hyf : Hyp m.nT (Gm m) (Hm m) l.rem (time : Rat) ffire E d :=
+    ⟨hg.G_lt, hg.H_lt, hg.cons, hrem, hE, hd,
+      fun pre v h => by simp only [ffire, decide_eq_false_iff_not] at h; grind,
+      fun _ _ pre v _ h => by simpa [ffire] using h⟩
+  have hfwd := pertFwd_correct hfs (time : Rat) l hyf
+  -- the critical path length
+  let pf := pertFwd m (time : Rat) l
+  let cpl := maxList l.cpl ((tails m).map pf.eft)
+  obtain ⟨x0, hx0, hx0t⟩ := exists_tail hg hn
+  have hne : (tails m).map pf.eft ≠ [] := by
+    intro h
+    have : x0 ∈ tails m := mem_tails.2 ⟨hx0, hx0t⟩
+    simp only [List.map_eq_nil_iff] at h
+    rw [h] at this
+    simp at this
+  obtain ⟨hcm, hcle⟩ := maxList_spec l.cpl hne
+  have hge : ∀ x, x < m.nT → Hm m x = [] → E x + l.rem x ≤ cpl := by
+    intro x hx h0
+    rw [← (hfwd x hx).2]
+    exact hcle _ (List.mem_map.2 ⟨x, mem_tails.2 ⟨hx, h0⟩, rfl⟩)
+  have hat : ∃ x, x < m.nT ∧ Hm m x = [] ∧ E x + l.rem x = cpl := by
+    obtain ⟨x, hxt, hxe⟩ := List.mem_map.1 hcm
+    obtain ⟨hx, h0⟩ := mem_tails.1 hxt
+    exact ⟨x, hx, h0, by rw [← (hfwd x hx).2]; exact hxe⟩
+  -- the backward reference
+  obtain ⟨E', hE'⟩ := exists_lp (-cpl) l.rem hg.symm.G_lt hg.symm.acyc
+  obtain ⟨d', hd'⟩ := exists_depth hg.symm.G_lt hg.symm.acyc
+  have href := AEqs.of_ref hg hrem hE hge hat hE'
+  have hneg : ∀ x, x < m.nT → E' x ≤ 0 := by
+    intro x hx
+    have h1 := href.eft_le_lft hg x hx
+    have h2 := href.time_le_est hx
+    have h3 := hrem x hx
+    have h4 : (0 : Rat) ≤ (time : Rat) := by exact_mod_cast Nat.zero_le time
+    grind
+  have hyb : Hyp m.nT (Hm m) (Gm m) l.rem (-cpl) bfire E' d' :=
+    ⟨hg.H_lt, hg.G_lt, hg.symm.cons, hrem, hE', hd',
+      fun pre v h => by
+        simp only [bfire, decide_eq_false_iff_not] at h
+        grind,
+      fun x hx pre v hp h => by
+        have := hneg x hx
+        simp only [bfire, decide_eq_true_eq] at h
+        grind⟩
+  obtain ⟨b1, b2, b3, b4⟩ := pertBwd_correct hfs l pf cpl rfl hyb
+  apply href.congr hg
+  intro x hx
+  simp only [pert, pertReset, tabN_eq]
+  refine ⟨?_, ?_, ?_, ?_⟩
+  · rw [b2]; exact (hfwd x hx).1
+  · rw [b3]; exact (hfwd x hx).2
+  · exact (b4 x hx).2
+  · exact (b4 x hx).1
+
+theorem pert_cpl (m : Model) (time : Nat) (l : Live) :
+    (pert m time l).cpl = maxList l.cpl ((tails m).map (pertFwd m (time : Rat) l).eft) := rfl
+
+/-! ### critical paths -/
+
+/-- `CritPath m est eft lst a b`: a chain of dependency edges from `a` to `b` on which every task
+has zero slack and every task starts exactly when its predecessor on the chain finishes. -/
+inductive CritPath (m : Model) (est eft lst : Nat → Rat) : Nat → Nat → Prop
+  | single {x : Nat} : x < m.nT → lst x = est x → CritPath m est eft lst x x
+  | snoc {a p x : Nat} (d : Dep) : CritPath m est eft lst a p → (p, d) ∈ (m.task x).inputs →
+      x < m.nT → lst x = est x → est x = eft p → CritPath m est eft lst a x
+
+theorem PertEqs.crit_to {m : Model} {time : Rat} {l : Live} {est eft lst lft : Nat → Rat} {cpl : Rat}
+    (hok : GraphOK m) (hac : Acyclic m) (hrem : ∀ t, t < m.nT → 0 ≤ l.rem t)
+    (h : PertEqs m time l est eft lst lft cpl) :
+    ∀ x, x < m.nT → lst x = est x →
+      ∃ a, a < m.nT ∧ (m.task a).inputs = [] ∧ CritPath m est eft lst a x := by
+  have hg := dag_of hok hac
+  have ha := pertEqs_iff.1 h
+  apply hg.induction
+  intro x hx ih hc
+  by_cases h0 : Gm m x = []
+  · exact ⟨x, hx, Gm_nil.1 h0, .single hx hc⟩
+  · obtain ⟨p, hp, hpc, hpe⟩ := ha.crit_pred hg hrem hx h0 hc
+    obtain ⟨a, han, ha0, hch⟩ := ih p hp hpc
+    obtain ⟨d, hd⟩ := mem_Gm.1 hp
+    exact ⟨a, han, ha0, .snoc d hch hd hx hc hpe⟩
+
+/-- the equations read only `rem` from the live state -/
+theorem PertEqs.of_rem_eq {m : Model} {time : Rat} {l l' : Live} {est eft lst lft : Nat → Rat}
+    {cpl : Rat} (hr : l'.rem = l.rem) (h : PertEqs m time l est eft lst lft cpl) :
+    PertEqs m time l' est eft lst lft cpl := by
+  refine ⟨?_, ?_, h.cpl_ge, h.cpl_at, h.lft_eq, ?_⟩
+  · rw [hr]; exact h.est_eq
+  · rw [hr]; exact h.eft_eq
+  · rw [hr]; exact h.lst_eq
 
 end PDesy.PertSpec
